@@ -17,7 +17,7 @@ m=json.load(open(sys.argv[1])); d=m.get("demo",{})
 if isinstance(d,dict):
     p=d.get("package dir") or d.get("package_dir") or d.get("package") or d.get("dir") or ""
 else: p=""
-print(p)
+print(p.split()[0] if p.split() else "")
 PY
 )
 # derive module + package dir from the patch if meta is unclear
@@ -29,6 +29,8 @@ if [ -z "$PKG" ] || [ ! -d "$WT/$PKG" ]; then PKG=$(dirname "$FIRST"); fi
 PKG=${PKG#./}
 # the demonstration decides the module (a change in the root module may be demonstrated in a dependant module)
 for m in sequencers/single sequencers/based apps/testapp da core; do case "$PKG/" in $m/*) MOD=$m;; esac; done
+# a demonstration in the root module of a change made in another module
+case "$PKG/" in $MOD/*) ;; *) [ "$MOD" != "." ] && MOD=. ;; esac
 REL=${PKG#$MOD/}; [ "$MOD" = "." ] && REL=$PKG; [ "$PKG" = "$MOD" ] && REL=.
 TESTNAME=$(grep -ho '^func Test[A-Za-z0-9_]*' "$DEMO" | sed 's/func //' | paste -sd'|')
 cp "$DEMO" "$WT/$PKG/"
